@@ -443,7 +443,7 @@ func engEvents(e *Env) {
 		for _, er := range gsub.errs {
 			e.violate("subscription-error", er, replay)
 		}
-		if strings.Join(gotG, ",") != strings.Join(expectGsub, ",") {
+		if !explicitPartial && strings.Join(gotG, ",") != strings.Join(expectGsub, ",") {
 			e.violate("subscription-results", fmt.Sprintf("the GraphQL subscription (v >= 5) yielded [%s], the committed matching changes are [%s]", strings.Join(gotG, ","), strings.Join(expectGsub, ",")), replay)
 		}
 		gsub.cancel()
